@@ -15,7 +15,7 @@ from __future__ import annotations
 import ast
 from typing import Any, Dict, List, Optional, Tuple
 
-from mtsa.absint import K, R, S, U, V
+from mtsa.absint import K, R, Ref, S, State, U, V
 from mtsa.index import Repo, dotted, norm, walk_no_nested
 from mtsa.report import AnalysisError, Ctx
 
@@ -171,29 +171,24 @@ def rule_chain(ctx: Ctx, repo: Repo) -> None:
     dr = mod.constants.get("DEFAULT_REWRITER")
     if dr is None:
         raise AnalysisError("DEFAULT_REWRITER not found")
-    ok = is_call_to(dr, "ChainedRewriter") and len(dr.args) == 1 and isinstance(dr.args[0], (ast.Tuple, ast.List))
+    # the constant is *evaluated* (constructors run abstractly): a chain object whose `rewriters` holds the members
+    from mtsa.index import FunctionInfo as _FI
+    from .common import RepoInterp as _RI
+    dummy = _FI(mod, "<module>", ast.parse("def _m(): pass").body[0])
+    ri0 = _RI(repo, dummy, may_fork=(), heap=True, inline={f.fq for f in mod.functions.values()})
+    ri0.construct_instances = True
+    st0 = State()
+    chain_v = ri0.interp.eval(dr, st0)
     names: List[Tuple[str, Dict[str, V]]] = []
+    ok = isinstance(chain_v, Ref) and chain_v.kind == "obj" and st0.deref(chain_v).get("__class__") == K(f"{TY}.ChainedRewriter")
     if ok:
-        for e in dr.args[0].elts:
-            if isinstance(e, ast.Call) and dotted(e.func):
-                attrs: Dict[str, V] = {}
-                cn = dotted(e.func)
-                ci = repo.cls(TY, cn, required=False)
-                if ci is None:
-                    ok = False
-                    continue
-                init = ci.methods.get("__init__")
-                if init is not None:
-                    for p, d in init.defaults().items():
-                        if isinstance(d, ast.Constant):
-                            attrs[p] = K(d.value)
-                    for kw in e.keywords:
-                        if isinstance(kw.value, ast.Constant):
-                            attrs[kw.arg] = K(kw.value.value)
-                    for p, a in zip(init.positional_params()[1:], e.args):
-                        if isinstance(a, ast.Constant):
-                            attrs[p] = K(a.value)
-                names.append((cn, attrs))
+        chain_list = ri0.interp.iterate(st0.deref(chain_v).get("rewriters", U("?")), st0)
+        ok = chain_list is not None
+        for m_ in chain_list or []:
+            if isinstance(m_, Ref) and m_.kind == "obj":
+                d_ = dict(st0.deref(m_))
+                cn = str(d_.pop("__class__", K("?")).v).rsplit(".", 1)[-1]
+                names.append((cn, {k: st0.freeze(v) for k, v in d_.items()}))
             else:
                 ok = False
     ctx.check(ok and [n for n, _ in names] == ["RemoveEmptyContainers", "RewriteConfigDict", "RewriteLargeUnion", "RewriteGenerator"],
